@@ -1,4 +1,5 @@
 mod alloc;
+mod build;
 mod dbg;
 mod domain;
 mod fault;
